@@ -1007,7 +1007,43 @@ func (rn *RNode) DeAnchor() (err error) {
 // them with what they point to.  All Anchor fields (these are used to mark
 // anchor definitions) are cleared.
 func deAnchor(yn *yaml.Node) (res *yaml.Node, err error) {
+	if err := checkAliasCycles(
+		yn, map[*yaml.Node]bool{}, map[*yaml.Node]bool{}); err != nil {
+		return nil, err
+	}
 	return deAnchorRec(yn, map[*yaml.Node]bool{})
+}
+
+// checkAliasCycles walks the tree as the decoder built it, before anything is
+// rewritten, and reports an alias that refers to a node containing it, whether
+// the alias is a plain value (`&x {b: *x}`) or the value of a merge key
+// (`&x {b: {<<: *x}}`, `&x {<<: *x}`).  Such a node has no finite expansion.
+// The check in deAnchorRec cannot see the merge key case: mergeAll rebuilds
+// every mapping from copies, so the node a merge key names is never the one
+// being processed, and the merge would copy it into itself without end.
+// open holds the collections on the current path, done those found clean.
+func checkAliasCycles(yn *yaml.Node, open, done map[*yaml.Node]bool) error {
+	if yn == nil || done[yn] {
+		return nil
+	}
+	switch yn.Kind {
+	case yaml.AliasNode:
+		if open[yn.Alias] {
+			return fmt.Errorf(
+				"alias %q refers to a node that contains it", yn.Value)
+		}
+		return checkAliasCycles(yn.Alias, open, done)
+	case yaml.DocumentNode, yaml.MappingNode, yaml.SequenceNode:
+		open[yn] = true
+		for i := range yn.Content {
+			if err := checkAliasCycles(yn.Content[i], open, done); err != nil {
+				return err
+			}
+		}
+		delete(open, yn)
+		done[yn] = true
+	}
+	return nil
 }
 
 // deAnchorRec does the work of deAnchor; open holds the collection nodes whose
